@@ -10,7 +10,7 @@ let funs = [nbytes "f"; nbytes "ab"]
 
 let run (c : string) (obs : string) : string * string * string =
   match words c with
-  | ["sym"; h; exp] ->
+  | "sym" :: h :: exp :: _ ->
     let s = unhex h in
     let m = (match evaluate std_ops funs (nbytes s) with
       | Ok v -> "V " ^ hex (string_of_nbytes v) | Err -> "E" | Panic -> "P" | OutOfFuel -> "MODEL-OUT-OF-FUEL") in
